@@ -26,7 +26,8 @@ MC = {"quick": [("MC_System", "MC_System.cfg", 4, {"SYS_BASE": str(BASEDIR / f"{
       "thorough": [("MC_System", "MC_System_thorough.cfg", 8, {"SYS_BASE": str(BASEDIR / f"{c}.tlc.json")}) for c in BASES]}
 TRACE = ("Trace_System", "Trace_System.cfg")
 REQUIRED = ["Access", "Copy", "MakeMask", "SaveMask", "LoadMask", "ApplyMask", "SelectVariables", "Mutate", "Save", "Open",
-            "Query", "SelectCell", "query-clipped-away", "query-on-derived", "cell-of-derived",
+            "Query", "SelectCell", "Extract", "extract-error", "extract-drop", "extract-fill", "extract-with-miss",
+            "extract-on-derived", "extract-after-mutation", "query-clipped-away", "query-on-derived", "cell-of-derived",
             "derived-view", "clip-of-clip", "clip-after-mutation", "reopen-clipped", "mask-reloaded", "mask-on-other-dataset"]
 RULE = ("one case = one behaviour of spec/EmsSystem.tla (depth 8, TLC -simulate) on a base dataset of a detectable convention: "
         "access / copy / make mask (points strictly inside the chosen cells) / save + load mask / apply to any dataset with the "
@@ -94,7 +95,11 @@ def cases(tier: str, seed: int) -> list[dict]:
                       {"a": "Save", "obj": 4}, {"a": "Open", "file": 2}, {"a": "Access", "obj": 5}, {"a": "Access", "obj": 1},
                       {"a": "Query", "obj": 3, "cell": valid[0]}, {"a": "Query", "obj": 3, "cell": valid[-1]},
                       {"a": "Query", "obj": 5, "cell": valid[1]}, {"a": "SelectCell", "obj": 4, "pos": 1},
-                      {"a": "SelectCell", "obj": 1, "pos": 2}]},
+                      {"a": "SelectCell", "obj": 1, "pos": 2},
+                      {"a": "Extract", "obj": 3, "cells": [valid[0], valid[-1], valid[1]], "policy": "drop"},
+                      {"a": "Extract", "obj": 3, "cells": [valid[-1], valid[1], valid[0]], "policy": "error"},
+                      {"a": "Extract", "obj": 4, "cells": [valid[2], valid[0], valid[-1]], "policy": "fill"},
+                      {"a": "Extract", "obj": 1, "cells": [valid[-1], valid[0]], "policy": "error"}]},
             # select variables, then clip the subset with a mask made on the original
             {"hist": [{"a": "SelectVariables", "obj": 1, "names": names[:1]}, {"a": "MakeMask", "obj": 1, "F": valid[-2:]},
                       {"a": "ApplyMask", "obj": 2, "mask": 1}, {"a": "Access", "obj": 2}, {"a": "Copy", "obj": 3},
@@ -233,6 +238,31 @@ def execute(case: dict) -> dict:
                             a_["data"] = clipdrv.proj_var_values(specs[n], r[n])
                             cell.append(a_)
                     obs["cell"] = cell
+                elif a == "Extract":
+                    import pandas
+                    from emsarray.operations import point_extraction
+                    d = objs[e["obj"] - 1]
+                    conv_id(d.ems)
+                    pts = [interior_point(rings[n]) for n in e["cells"]]
+                    try:
+                        if e["policy"] == "fill":
+                            df = pandas.DataFrame({"lon": [x * SCALE for x, _ in pts], "lat": [y * SCALE for _, y in pts]})
+                            r = point_extraction.extract_dataframe(d, df, ("lon", "lat"), missing_points="fill")
+                        else:
+                            r = point_extraction.extract_points(d, [shapely.Point(x * SCALE, y * SCALE) for x, y in pts],
+                                                                missing_points=e["policy"])
+                    except point_extraction.NonIntersectingPoints as ex:
+                        obs["indices"] = [int(i) for i in ex.indexes]
+                        raise
+                    specs = {v["name"]: v for v in w["vars"]}
+                    rows_ = []
+                    for n in r.data_vars:
+                        if n in specs:
+                            a_ = CD.proj_array(n, r[n])
+                            a_["data"] = clipdrv.proj_var_values(specs[n], r[n])
+                            rows_.append(a_)
+                    obs["rows"] = rows_
+                    obs["labels"] = [int(x) for x in r["point"].values.tolist()]
                 elif a == "Open":
                     r = xarray.open_dataset(files[e["file"] - 1]).load(); r.close()
                     objs.append(r); obs["subject"] = len(objs)
@@ -247,6 +277,8 @@ def execute(case: dict) -> dict:
                 e["F"] = sorted(e["F"])
             if "names" in e:
                 e["names"] = sorted(e["names"])
+            if a == "Extract":
+                obs.setdefault("indices", []); obs.setdefault("rows", []); obs.setdefault("labels", []); obs.setdefault("error", "")
             rec["events"].append(e)
         return rec
     finally:
